@@ -187,6 +187,20 @@ def run(ctx):
             ctx.violation(dict(kind='unrepresentable-value-written', type=impl.type_syntax(t), value=repr(bad), written=st.getvalue().hex(),
                                how='DataType.write_to_stream(BytesIO(), value, 1) must raise for a float too large for the type (it was written as something else)'))
             break
+        # MAILBOX: (dotted IPv4 text, 16-bit port) is what the four + two bytes carry; anything else - an IPv6 literal, an integer, packed bytes,
+        # free text, a port outside 0..65535 - is refused, or, if the writer accepts it, must read back as the same value from exactly those bytes
+        for bad in (('::1', 6000), ('fe80::1', 1), (2130706433, 80), (b'\x7f\x00\x00\x01', 80), ('not an address', 1), ('1.2.3.4', 70000), ('1.2.3.4', -1),
+                    ('1.2.3.4.5', 1), ('', 0), (None, 1), ('1.2.3.4',), ('256.1.1.1', 1)):
+            lt = lib.make(('mailbox',)); st = io.BytesIO(); ctx.case(None); ctx.count('mailbox-foreign-value')
+            try: lt.write_to_stream(st, bad, 1)
+            except Exception: continue
+            rd = io.BytesIO(st.getvalue())
+            try: back = lt.create_from_stream(rd, 1)
+            except Exception as e: back = 'read fails: ' + type(e).__name__
+            if tuple(back) != tuple(bad) if isinstance(back, (tuple, list)) else True or rd.tell() != len(st.getvalue()):
+                ctx.violation(dict(kind='unrepresentable-value-written', type='mailbox', value=repr(bad), written=st.getvalue().hex(), read_back=repr(back), left_over=len(st.getvalue()) - rd.tell(),
+                                   how='Mailbox.write_to_stream(BytesIO(), value, 1): the value is not (dotted IPv4 text, port 0..65535); it must be refused, or read back as the same value from exactly the bytes written'))
+                break
         # argument lists
         from replay_unpack.core.entity_def.entity_description import EntityMethod, MethodArgument
         bad_args = None
